@@ -3,7 +3,7 @@
    - the transition system [rsteps] explored completely in Proofs/RaceBase.v, and
    - [race_run], which executes a schedule given as tokens (the same tokens the
      correspondence family "race" forces on a real daemon through hold points). *)
-From VV Require Import Base.Bits Base.Val.
+From VV Require Import Base.Bits Base.Val Gen.GenWk.
 Open Scope string_scope.
 Open Scope list_scope.
 Open Scope N_scope.
@@ -47,8 +47,11 @@ Definition set_w (s : rs) (w' pending' : N) (late' : bool) : rs :=
 Definition worker_step (s : rs) : list rs :=
   if w s =? 0 then (if registered s && (0 <? pending s) then [set_w s 1 (pending s) (late s)] else [])
   else if w s =? 1 then
-    (* read_kick: a disabled ring's kick is left pending *)
-    (if enabled s then [set_w s 2 (if haskick s then 0 else pending s) (late s)] else [set_w s 0 (pending s) (late s)])
+    (* read_kick and what handle_event does with its result, both REGENERATED (Gen.GenWk): wk_rk_d1 says when read_kick
+       returns "not enabled" without touching the descriptor, wk_he_d3 when handle_event then returns without a dispatch *)
+    (let res := negb (wk_rk_d1 (enabled s)) in
+     let pend := if res && haskick s then 0 else pending s in
+     if wk_he_d3 true 0 1 1 res then [set_w s 0 pend (late s)] else [set_w s 2 pend (late s)])
   else [set_w s 0 (pending s) (late s || mon_dis s || mon_stop s)].
 
 Definition guest_step (s : rs) : list rs :=
